@@ -175,7 +175,23 @@ def gen_case(rng, i, neutral_only=False):
     if rng.random() < 0.25:
         q['top'] = rng.randrange(0, 4)
         q['top_kw'] = rng.choice(['top', 'limit'])
-    case = common.case_json(q, {'A': A, 'B': None, 'a_names': a_names, 'b_names': None})
+    B = b_names = None
+    if rng.random() < 0.07:
+        # the aggregated records are the pairs of a JOIN (not the input records): a lookup table keyed by the first column
+        B = [[rng.choice(KEYS + ['zz']), rng.choice(INTS)] for _ in range(rng.randrange(0, 7))]
+        b_names = ['jk', 'jv'] if a_names is not None else None
+        kf = fld(0)
+        if kf[3] == 'sq':
+            kf[3] = 'dq'
+        q['join'] = {'type': rng.choice(['JOIN', 'INNER JOIN', 'LEFT JOIN']), 'table': 'b', 'pairs': [[kf, ['field', 'b', 0, 'var'], '==', False]]}
+        if rng.random() < 0.5:
+            # nothing but the count of the pairs
+            q['items'] = [{'kind': 'agg', 'func': 'COUNT', 'spelling': rng.choice(SPELL['COUNT']), 'arg': rng.choice(['*', ['int', 1]])}]
+            if rng.random() < 0.3:
+                q['items'][0]['alias'] = g.alias()
+                q['items'][0]['as_kw'] = 'as'
+            q['group'] = q['where'] = q['top'] = None
+    case = common.case_json(q, {'A': A, 'B': B, 'a_names': a_names, 'b_names': b_names})
     ints = [[abs(int(c)) for c in r[nkeys:] if isinstance(c, int) or isinstance(c, str) and c.lstrip('-').isdigit()] for r in A]
     if any(v > 2 ** 53 for r in ints for v in r) or sum(max(r or [0]) for r in ints) > 2 ** 53:
         case['py_only'] = True          # a double cannot hold the cells, or not even their sum
@@ -333,10 +349,12 @@ def run_shard(spec, res):
         for n in range(spec['n']):
             builtin = n % 16 == 15
             case = gen_builtin_case(rng) if builtin else gen_case(rng, n, neutral_only=(n % 3 == 0))
-            ref = refsem.run(case['q'], case['A'], None, case['a_names'], None)
+            ref = refsem.run(case['q'], case['A'], case['B'], case['a_names'], case['b_names'])
             o = common.run_case_py(ns, case)
             res.evaluations += 1
             res.count('py_builtin_dispatch_cases' if builtin else 'py_aggregate_cases')
+            if case['B'] is not None:
+                res.count('aggregate_cases_over_join_pairs')
             common.compare(res, PROPERTY, 'py', case, common.obs_to_got(o), ref, False, None)
             common.check_py_monitors(res, case, o)
             if ref.error is not None:
